@@ -427,7 +427,7 @@ def inproc(ctx):
     rng = ctx.rng
     h = mch.Harness(ctx)
     cases = []
-    plan = [("plain", ctx.n(45, 900)), ("watch0", ctx.n(45, 900)), ("any", ctx.n(60, 1300))]
+    plan = [("plain", ctx.n(45, 700)), ("watch0", ctx.n(45, 700)), ("any", ctx.n(60, 1000))]
     todo = [gen_case(rng, klass) for klass, n in plan for _ in range(n)]
     run_all(h, todo)
     for case in todo:
@@ -462,6 +462,81 @@ def inproc(ctx):
     ctx.log("Coq evaluation done")
 
 
+def threads(ctx):
+    """several threads with interleaved hooks in one process: every thread's stream and state must be the model's run
+    on that thread's own hooks and observations ("that thread's previous observation"); -W cpu only (the global
+    item of -W var is shared between threads)"""
+    rng = ctx.rng
+    h = mch.Harness(ctx)
+    cases = []
+    for it in range(ctx.n(8, 120)):
+        nth = rng.choice([2, 3])
+        klass = rng.choice(["watch0", "any"])
+        base = gen_case(rng, klass)
+        base["wvar"] = False
+        base["wcpu"] = True
+        base["cfg"].pop("max_stack", None)
+        per = [base]
+        for _ in range(nth - 1):
+            c = gen_case(rng, klass)
+            for k in ("cfg", "reads", "wcpu", "wvar", "pmu"):
+                c[k] = base[k]
+            per.append(c)
+        cyg = base["cfg"].get("shape") == "cyg"
+        lines = ["AUTOSTATE 2", "VALX statm_on 1", "VALX pmu_on %d" % (1 if base["pmu"] else 0)]
+        pos = [0] * nth
+        prev = None
+        while any(pos[t] < len(per[t]["evs"]) for t in range(nth)):
+            t = rng.choice([x for x in range(nth) if pos[x] < len(per[x]["evs"])])
+            lines.append("T %d" % (t + 1))
+            for _ in range(rng.randrange(1, 4)):
+                if pos[t] >= len(per[t]["evs"]):
+                    break
+                e = per[t]["evs"][pos[t]]
+                pos[t] += 1
+                lines += set_obs_lines(prev, e[3])
+                prev = e[3]
+                if e[0] == "E":
+                    lines.append(("CE %d %d" if cyg else "E %d %d") % (e[1], e[2]))
+                else:
+                    lines.append("CX %d %d" % (e[1], e[2]) if cyg else "X %d" % e[2])
+        for t in range(nth):
+            lines += ["T %d" % (t + 1), "DUMP"]
+        out, err = run_script(h, lines, case_env(base), 80)
+        # attribute the state lines and the dumps to the threads
+        cur, states, sections, sec = None, {t + 1: [] for t in range(nth)}, {}, None
+        pend_s = None
+        for l in out:
+            if l.startswith("T ") and len(l.split()) == 2:
+                cur = int(l.split()[1])
+            elif l.startswith("S ") and cur:
+                k = l.split()
+                pend_s = [int(k[1]), int(k[2]), int(k[3]), int(k[4]), int(k[5]), int(k[6]), int(k[7]), int(k[8]), k[9] == "1"]
+            elif l.startswith("XS ") and cur and pend_s is not None:
+                k = l.split()
+                states[cur].append(tuple(pend_s) + (int(k[1]), k[2] == "1", int(k[3])))
+                pend_s = None
+            elif l.startswith("BUF ") and sec is None:
+                sec = [l]
+            elif sec is not None:
+                sec.append(l)
+                if l == "END":
+                    sections[cur] = sec
+                    sec = None
+        if len(sections) != nth:
+            ctx.broken("thread harness produced %d dumps for %d threads" % (len(sections), nth), "\n".join(out[-20:]))
+            continue
+        for t in range(nth):
+            c = per[t]
+            c["res"] = {"states": states[t + 1], "items": parse_stream(sections[t + 1]), "errno_ok": True}
+            c["thread_script"] = lines
+            cases.append(c)
+        ctx.case(key=("threads", repr(base["cfg"]), tuple(lines)), tags=["threads=%d" % nth, "class:threads"],
+                 size=len(lines))
+    if cases:
+        evaluate(ctx, cases, "c17_threads")
+
+
 def sample_of(case):
     return {"cfg": case["cfg"], "reads": case["reads"], "watch": [case["wcpu"], case["wvar"]],
             "events": [(e[0], e[1], e[2]) for e in case["evs"][:8]], "stream": case["res"]["items"][:10]}
@@ -471,6 +546,8 @@ def replay_obj(case, extra=None):
     o = {"mode": "inproc", "klass": case["klass"], "cfg": case["cfg"], "reads": case["reads"], "wcpu": case["wcpu"],
          "wvar": case["wvar"], "pmu": case["pmu"], "events": case["evs"], "env": case_env(case),
          "impl_states": case["res"]["states"], "impl_stream": case["res"]["items"]}
+    if case.get("thread_script"):
+        o["thread_script"] = case["thread_script"]
     o.update(extra or {})
     return o
 
@@ -487,7 +564,7 @@ def with_shared(defs):
     return SHARED + oval_defs() + defs
 
 
-def evaluate(ctx, cases):
+def evaluate(ctx, cases, name="c17_cases"):
     defs = case_defs(cases)
     # flags: which checker applies to which case
     nest = [c["complete"] and not has_switch(c["cfg"]) for c in cases]
@@ -514,7 +591,7 @@ def evaluate(ctx, cases):
             if c["wvar"] else "true")
         for i, c in wsp)
     T = "(xcfg * list xev * list xobs * list oitem)"
-    res = coq.run_cases(ctx, "c17_cases", PRE, with_shared(defs), [
+    res = coq.run_cases(ctx, name, PRE, with_shared(defs), [
         ("mismatch", "bad_indices (fun c : %s => let '(a, b, o, r) := c in agree_x a b o r) cases 0" % T),
         ("nested", "bad_indices (fun p : %s * bool => let '((a, b, o, r), chk) := p in negb chk || ok_nested_x r) "
                    "(combine cases nestchk) 0" % T),
@@ -528,9 +605,9 @@ def evaluate(ctx, cases):
     if res is None:
         return
     R = {k: coq.parse_nat_list(v) for k, v in res.items()}
-    ctx.extra["read_spec_checks"] = len(spec)
-    ctx.extra["watch_spec_checks"] = len(wsp)
-    ctx.extra["disagreements"] = len(R["mismatch"])
+    ctx.extra["read_spec_checks"] = ctx.extra.get("read_spec_checks", 0) + len(spec)
+    ctx.extra["watch_spec_checks"] = ctx.extra.get("watch_spec_checks", 0) + len(wsp)
+    ctx.extra["disagreements"] = ctx.extra.get("disagreements", 0) + len(R["mismatch"])
     for i in R["nested"][:2]:
         ctx.violation("C17: erasing the events from the recorded stream does not leave a properly nested stream",
                       replay_obj(cases[i]), True)
@@ -682,6 +759,7 @@ def run(ctx):
     build.get_build("plain", ctx.log)
     witnesses(ctx)          # first: they also tell which variant of the two repaired decision points the code has
     inproc(ctx)
+    threads(ctx)
 
 
 def replay(ctx, obj):
